@@ -9,9 +9,17 @@ from ..prop import V
 
 C10_SCHEMES = ["CJJ14.PiBas", "CJJ14.PiPack", "CJJ14.PiPtr", "CJJ14.Pi2Lev", "CT14.Pi", "ANSS16.Scheme3", "DP17.Pi"]
 WORDS = ["both", "only1", "only2", "none"]
-SID = "c10" + "cd" * 30 + "e"
-FOREIGN = "f" * 64
-DECOY = "c10" + "de" * 30 + "c"
+def sids_for(style):
+    """(service id under test, foreign sid used inside messages, sid of the decoy service).  The server takes any string as a
+    service id; the stock client sends 64 hex digits.  'dotted' and 'long' pick ids that stay distinct as strings (and as
+    directory names) but look alike: they differ only in punctuation, or only after the 128th character."""
+    if style == "dotted":
+        base = "c10.svc-" + "cd" * 28
+        return base, "f" * 64, base.replace(".", "_").replace("-", ".")
+    if style == "long":
+        base = "c10" + "cd" * 70
+        return base + "-tail-A", "f" * 64, base + "-tail-B"
+    return "c10" + "cd" * 30 + "e", "f" * 64, "c10" + "de" * 30 + "c"
 
 
 class C10(P.Property):
@@ -87,10 +95,11 @@ class C10(P.Property):
             else:
                 steps.append({"do": k})
         knobs = dict(scheme=rng.choice(C10_SCHEMES),
-                     net=rng.choice([dict(lo=0.001, hi=0.05), dict(lo=0.001, hi=0.05, seg=3), dict(lo=0.0005, hi=0.004), dict(lo=0.01, hi=0.3, tail=0.1, seg=2)]),
+                     net=rng.choice([dict(lo=0.001, hi=0.05), dict(lo=0.001, hi=0.05, seg=3), dict(lo=0.0005, hi=0.004), dict(lo=0.01, hi=0.3, tail=0.1, seg=2),
+                                     dict(lo=0.0, hi=0.0)]),  # the last: no latency at all -- events tie and only the loop's FIFO order decides
                      skew=rng.choice([1.0, 1.0, 0.5, 2.0]), bufsize=rng.choice([8192, 8192, 16]), forced_gap=rng.choice([0, 0.5, 1.5]),
                      decoy=rng.random() < 0.5, gc_every=rng.choice([0, 0, 1, 3]),
-                     digest=rng.choice(["unique", "unique", "same", "none"]))
+                     digest=rng.choice(["unique", "unique", "same", "none"]), sid_style=rng.choice(["hex", "hex", "dotted", "long"]))
         return {"property": "C10", "seed": seed, "knobs": knobs, "steps": steps}
 
     def enumerate(self, tier):
@@ -106,6 +115,7 @@ class C10(P.Property):
     def execute(self, plan):
         res = P.Result()
         knobs = plan["knobs"]
+        SID, FOREIGN, DECOY = sids_for(knobs.get("sid_style", "hex"))
         w = self.world_for(knobs["scheme"])
         run = fe.Run(plan["seed"], knobs)
         accepted = {}  # file name -> bytes on disk right after the request that created it was acknowledged
@@ -151,6 +161,7 @@ class C10(P.Property):
 
     async def _scenario(self, run, plan, w, out, viol, msgno):
         knobs = plan["knobs"]
+        SID, FOREIGN, DECOY = sids_for(knobs.get("sid_style", "hex"))
         L, C, DB, E, T = w["L"], w["C"], w["DB"], w["E"], w["T"]
         probes = out["probes"]
         run.boot_server()
@@ -386,7 +397,7 @@ class C10(P.Property):
 
     def simplifications(self, plan):
         k = plan["knobs"]
-        for key, val in (("skew", 1.0), ("bufsize", 8192), ("scheme", "CJJ14.PiBas"), ("net", dict(lo=0.01, hi=0.01)), ("forced_gap", 0), ("decoy", False), ("gc_every", 0), ("digest", "unique")):
+        for key, val in (("skew", 1.0), ("bufsize", 8192), ("scheme", "CJJ14.PiBas"), ("net", dict(lo=0.01, hi=0.01)), ("forced_gap", 0), ("decoy", False), ("gc_every", 0), ("digest", "unique"), ("sid_style", "hex")):
             if k.get(key) != val:
                 yield dict(plan, knobs=dict(k, **{key: val}))
         steps = plan["steps"]
